@@ -13,6 +13,7 @@ import (
 	"fmt"
 	"io"
 	"net"
+	"os"
 	"runtime"
 	"strings"
 	"sync"
@@ -333,7 +334,6 @@ func (r *Rig) PeerConnect(d time.Duration) *Peer {
 			return nil
 		}
 	}
-	n, p := r.nextPlan()
 	a, b := net.Pipe()
 	tc := &tconn{Conn: a}
 	select {
@@ -348,6 +348,7 @@ func (r *Rig) PeerConnect(d time.Duration) *Peer {
 		_ = b.Close()
 		return nil
 	}
+	n, p := r.nextPlan() // a plan is consumed only by a connection the library actually accepted
 	return r.attach(b, n, p, tc.id)
 }
 
@@ -655,20 +656,27 @@ func (p *Peer) run() {
 	}
 }
 
-// Done2 blocks until the rig is torn down (used by a peer that stops reading).
+// Done2 is used by a peer that stops reading: it blocks until the rig is torn down, the peer is
+// closed, or the LIBRARY has closed its end (detected by a write of zero frames is impossible on a
+// pipe, so the peer probes with a deadline-bounded 0-progress write: net.Pipe reports a closed
+// remote end on Write even when nobody reads).
 func (p *Peer) Done2() <-chan struct{} {
 	ch := make(chan struct{})
 	go func() {
+		defer close(ch)
 		for !p.r.closing.Load() {
 			p.mu.Lock()
 			c := p.closed
 			p.mu.Unlock()
 			if c {
-				break
+				return
+			}
+			_ = p.c.SetWriteDeadline(time.Now().Add(time.Millisecond))
+			if _, err := p.c.Write([]byte{0}); err != nil && !errors.Is(err, os.ErrDeadlineExceeded) {
+				return // remote end closed
 			}
 			time.Sleep(2 * time.Millisecond)
 		}
-		close(ch)
 	}()
 	return ch
 }
